@@ -97,7 +97,32 @@ pub fn run(args: &Args) -> Report {
             let n_cells = match rng.below(5) { 0 => 0, 1 => 1, _ => rng.range(2, 300) };
             let n_hdr = rng.range(0, 3);
             let mut v = tpl.clone();
-            v["main_page"] = Value::Array((0..n_cells).map(|_| json!({"address": hex(&Felt::from(rng.below(1 << 30))), "value": hex(&{ let k = rng.below(7); special(&mut rng, k) })})).collect());
+            let mut cells: Vec<Value> = (0..n_cells).map(|_| json!({"address": hex(&Felt::from(rng.below(1 << 30))), "value": hex(&{ let k = rng.below(7); special(&mut rng, k) })})).collect();
+            // repeated cells (the same (address, value) pair several times, adjacent or apart): every
+            // occurrence contributes its own factor
+            match rng.below(4) {
+                0 if !cells.is_empty() => {
+                    let mut rep_cells = vec![];
+                    for c in cells.iter() {
+                        for _ in 0..rng.range(1, 3) {
+                            rep_cells.push(c.clone());
+                        }
+                    }
+                    cells = rep_cells;
+                }
+                1 if !cells.is_empty() => {
+                    let c0 = cells[0].clone();
+                    let k = rng.below(cells.len() as u64) as usize;
+                    cells[k] = c0.clone();
+                    cells.push(c0);
+                }
+                _ => {}
+            }
+            let repeated = cells.windows(2).any(|w| w[0] == w[1]);
+            if repeated {
+                rep.inc("memory.pages_with_adjacent_equal_cells");
+            }
+            v["main_page"] = Value::Array(cells);
             v["continuous_page_headers"] = Value::Array((0..n_hdr).map(|_| json!({"start_address": "0x10", "size": hex(&Felt::from(rng.below(50))), "hash": "0x1", "prod": hex(&(rng.felt() + Felt::ONE))})).collect());
             v["padding_addr"] = json!(hex(&Felt::from(rng.below(1 << 20))));
             v["padding_value"] = json!(hex(&rng.felt()));
